@@ -285,6 +285,29 @@ let run_pp (c : case) =
       | _ -> failwith "pp: unknown line")
     c.lines
 
+(* ------------------------------------------------------------------ packrat (Peg.v storage model) *)
+let run_packrat (c : case) =
+  let st = ref { Peg.ps_map = []; Peg.ps_keys = []; Peg.ps_cap = None; Peg.ps_aux = () } in
+  Stdlib.List.iter
+    (fun l ->
+      match l with
+      | "cap" :: n :: _ ->
+          st := { Peg.ps_map = []; Peg.ps_keys = []; Peg.ps_aux = ();
+                  Peg.ps_cap = (if n = "none" then None else Some (nat_of_int (int_of_string n))) }
+      | "clear" :: _ -> st := { !st with Peg.ps_map = []; Peg.ps_keys = [] }
+      | "ins" :: n :: p :: f :: v :: _ ->
+          let k = ((nat_of_int (int_of_string n), nat_of_int (int_of_string p)), f = "1") in
+          let mv = if v = "none" then None else Some ([], nat_of_int (int_of_string v)) in
+          st := Peg.memo_insert !st k mv
+      | "get" :: n :: p :: f :: _ ->
+          let k = ((nat_of_int (int_of_string n), nat_of_int (int_of_string p)), f = "1") in
+          (match Peg.map_get !st.Peg.ps_map k with
+           | None -> pr "get miss\n"
+           | Some None -> pr "get rejected\n"
+           | Some (Some (_, n)) -> pr "get %d:%d\n" (int_of_nat n) (int_of_nat n))
+      | _ -> failwith "packrat: unknown line")
+    c.lines
+
 let () =
   let cmd = Sys.argv.(1) in
   let cases = read_cases Sys.argv.(2) in
@@ -296,6 +319,7 @@ let () =
          | "originops" -> run_originops c
          | "tree" -> run_tree c
          | "pp" -> run_pp c
+         | "packrat" -> run_packrat c
          | _ -> failwith "unknown command"
        with
        | Stack_overflow -> pr "model-abort stack\n"
